@@ -388,8 +388,45 @@ class Agg:
                            f"validate, per rules file: exit code {ERRC} iff the rules file does not parse, {FAILC} iff it parses and the "
                            f"evaluation is FAIL, else {OKC}")
         if c:
-            c["reproduced"] = False
+            import mirflow
+            c["replay"] = mirflow.replay_exit_codes(self)
+            if not c["replay"].get("reproduced"):
+                r2 = self.replay_empty_data_collection()
+                if r2.get("reproduced"):
+                    c["replay"] = r2
+            c["reproduced"] = c["replay"].get("reproduced", False)
             self.candidates.append(c)
+
+    def replay_empty_data_collection(self, cand=None):
+        """a rules file that does not parse gives exit 5 also when there is no data file to evaluate (a directory without files of a
+        supported extension, a payload with `data: []`); a good rules file gives 0 there"""
+        exe = self.cli()
+        if not exe:
+            return {"reproduced": False, "note": "native build failed"}
+        d = tempfile.mkdtemp(prefix="cfnverif_replay_")
+        out = []
+        try:
+            os.makedirs(os.path.join(d, "empty"))
+            open(os.path.join(d, "empty", "readme.txt"), "w").write("not a data file\n")
+            texts = {"good": "rule p { a == 1 }\n", "broken": "rule b { a == }\n"}
+            for k, t in texts.items():
+                open(os.path.join(d, k + ".guard"), "w").write(t)
+            for k, want in (("good", 0), ("broken", 5)):
+                for structured in (False, True):
+                    extra = ["--structured", "-o", "json"] if structured else []
+                    pr = subprocess.run([exe, "validate", "-r", os.path.join(d, k + ".guard"), "-d", os.path.join(d, "empty"), "--show-summary", "none"] + extra,
+                                        stdout=subprocess.PIPE, stderr=subprocess.PIPE, text=True, timeout=60)
+                    if pr.returncode != want:
+                        out.append({"rules_file": texts[k], "data": "a directory without data files", "structured": structured, "expected_exit": want,
+                                    "observed_exit": pr.returncode})
+                    pr = subprocess.run([exe, "validate", "--payload", "--show-summary", "none"] + extra, input=json.dumps({"rules": [texts[k]], "data": []}),
+                                        stdout=subprocess.PIPE, stderr=subprocess.PIPE, text=True, timeout=60)
+                    if pr.returncode != want:
+                        out.append({"rules_file": texts[k], "data": "payload with data: []", "structured": structured, "expected_exit": want,
+                                    "observed_exit": pr.returncode})
+            return {"reproduced": bool(out), "mismatches": out[:4]}
+        finally:
+            shutil.rmtree(d, ignore_errors=True)
 
     # ------------------------------------------------------------------------------------------
     # memoisation sites: what is stored in the cache is what is returned (so that the first and every later
